@@ -1,7 +1,7 @@
 /* Executor for C13: the real async signing service (net_async.c) on top of the real async TCP
  * client, whose socket calls are redirected to the simulator (as in exec_c14.c); the scripted
  * server builds its PDUs with the independent reference builder (refbuild.h).
- *  async <cache> <rcvTimeout> <sndTimeout> <steps>
+ *  async | asyncx <cache> <rcvTimeout> <sndTimeout> <steps>        (asyncx: the extending service)
  *    steps ','-separated:
  *      a                          add a signing request
  *      ac | cf                    add a request carrying a hash and a configuration request | a configuration request alone => A<status>:<id> | A<status>:c
@@ -104,21 +104,44 @@ static time_t sim_time(time_t *t) { if (t) *t = g_now; return g_now; }
 
 time_t __wrap_time(time_t *t) { if (t) *t = g_now; return g_now; }
 
+/* extension response payload (0x02): request id, status, [error message], for status 0 a calendar chain from the requested
+ * aggregation time to itself */
+static void rb_ext_resp(rb_buf *payloads, uint64_t reqId, uint64_t status, const char *msg, uint64_t aggrTime) {
+	rb_buf r; rb_init(&r);
+	rb_tlv_int(&r, 0x01, reqId); rb_tlv_int(&r, 0x04, status);
+	if (msg) rb_tlv_str(&r, 0x05, msg);
+	if (status == 0) {
+		rb_buf c; unsigned char imp[33]; rb_init(&c);
+		memset(imp, 0x3c, sizeof(imp)); imp[0] = 1;
+		rb_tlv_int(&c, 0x01, aggrTime); rb_tlv_int(&c, 0x02, aggrTime); rb_tlv(&c, 0x05, 0, 0, imp, sizeof(imp));
+		/* publication time = aggregation time: one right link per set bit of the time */
+		{ uint64_t t = aggrTime; unsigned char sib[33]; memset(sib, 0x5d, sizeof(sib)); sib[0] = 1; for (; t; t &= t - 1) rb_tlv(&c, 0x08, 0, 0, sib, sizeof(sib)); }
+		rb_tlv(&r, 0x802, 0, 0, c.p, c.n); free(c.p);
+	}
+	rb_tlv(payloads, 0x02, 0, 0, r.p, r.n); free(r.p);
+}
+
 #ifndef VERIF_SIM_ONLY
 static KSI_CTX *ctx;
+static uint64_t ext_time(KSI_AsyncHandle **hs, int nh, uint64_t rid, int k) {
+	int i;
+	for (i = nh - 1; i >= 0; i--) if (hs[i]->id == rid) return 1500000000 + (uint64_t)i;
+	return 1500000000 + (uint64_t)(k >= 0 ? k : 0);
+}
 #define MAXREQ 512
 
 static void do_line(char *work, const char *orig) {
 	char *w[8]; int n = split_words(work, w, 8);
 	(void)orig;
-	if (n == 5 && !strcmp(w[0], "async")) {
+	if (n == 5 && (!strcmp(w[0], "async") || !strcmp(w[0], "asyncx"))) {
+		int ext = w[0][5] == 'x';      /* asyncx: the extending service (requests: extend to the head; replies: extension PDUs) */
 		KSI_AsyncService *as = NULL; KSI_AsyncHandle *hs[MAXREQ]; int nh = 0, first = 1, i;
 		KSI_AsyncHandle *cfs[64]; int ncf = 0;
 		char *save = NULL, *tok; rb_buf stream;
 		rb_init(&stream);
 		g_nconn = 0; g_now = 1000; g_poll_ret = 1; g_revents = POLLIN | POLLOUT; g_connect_ok = 1; g_spos = 0; g_slen = 0;
 		strcpy(g_recvs, "p"); strcpy(g_sends, "-");
-		if (KSI_SigningAsyncService_new(ctx, &as) != KSI_OK) { printf("NEW-FAILED"); return; }
+		if ((ext ? KSI_ExtendingAsyncService_new(ctx, &as) : KSI_SigningAsyncService_new(ctx, &as)) != KSI_OK) { printf("NEW-FAILED"); return; }
 		if (KSI_AsyncService_setEndpoint(as, "ksi+tcp://sim.host:1234", "user", "pass") != KSI_OK) { printf("ENDPOINT-FAILED"); return; }
 		KSI_AsyncService_setOption(as, KSI_ASYNC_OPT_REQUEST_CACHE_SIZE, (void *)(size_t)atoi(w[1]));
 		KSI_AsyncService_setOption(as, KSI_ASYNC_OPT_RCV_TIMEOUT, (void *)(size_t)atoi(w[2]));
@@ -129,8 +152,14 @@ static void do_line(char *work, const char *orig) {
 			if (!strcmp(tok, "a")) {
 				KSI_DataHash *hsh = NULL; KSI_AsyncHandle *h = NULL; unsigned char d[32]; int r;
 				memset(d, nh & 0xff, sizeof(d));
+				if (ext) {
+					KSI_ExtendReq *er = NULL; KSI_Integer *at = NULL;
+					KSI_ExtendReq_new(ctx, &er); KSI_Integer_new(ctx, 1500000000 + (KSI_uint64_t)nh, &at); KSI_ExtendReq_setAggregationTime(er, at);
+					KSI_AsyncExtendHandle_new(ctx, er, &h);        /* takes ownership of the request */
+				} else {
 				KSI_DataHash_fromDigest(ctx, KSI_HASHALG_SHA2_256, d, sizeof(d), &hsh);
 				KSI_AsyncSigningHandle_new(ctx, hsh, 0, &h);   /* takes ownership of the hash */
+				}
 				r = KSI_AsyncService_addRequest(as, h);
 				if (!first) putchar(' '); first = 0;
 				if (r == KSI_OK) { printf("A0:%llu", (unsigned long long)h->id); if (nh < MAXREQ) hs[nh++] = KSI_AsyncHandle_ref(h); }
@@ -186,16 +215,24 @@ static void do_line(char *work, const char *orig) {
 				k = nf > 2 ? atoi(f[2]) : 0;
 				if (k >= 0 && k < nh) id = hs[k]->id;
 				rb_init(&pl); rb_init(&pdu);
-				if (!strcmp(f[1], "ok") || !strcmp(f[1], "badmac")) rb_aggr_resp(&pl, id, 0, NULL);
+				/* an extension reply answers the request that bears its identifier NOW (identifiers are reused across generations): the
+				 * calendar chain is for that request's aggregation time */
+#define EXT_TIME(rid) ext_time(hs, nh, (rid), k)
+				if (ext && (!strcmp(f[1], "ok") || !strcmp(f[1], "badmac"))) rb_ext_resp(&pl, id, 0, NULL, EXT_TIME(id));
+				else if (ext && !strcmp(f[1], "status")) rb_ext_resp(&pl, id, (uint64_t)strtoull(f[3], NULL, 10), "refused", 0);
+				else if (ext && !strcmp(f[1], "unk")) rb_ext_resp(&pl, 0xfffe, 0, NULL, 1500000000);
+				else if (ext && !strcmp(f[1], "stale")) rb_ext_resp(&pl, id ^ (1ULL << 32), 0, NULL, EXT_TIME(id ^ (1ULL << 32)));
+				else if (!strcmp(f[1], "ok") || !strcmp(f[1], "badmac")) rb_aggr_resp(&pl, id, 0, NULL);
 				else if (!strcmp(f[1], "status")) rb_aggr_resp(&pl, id, (uint64_t)strtoull(f[3], NULL, 10), "refused");
 				else if (!strcmp(f[1], "unk")) rb_aggr_resp(&pl, 0xfffe, 0, NULL);
 				else if (!strcmp(f[1], "stale")) rb_aggr_resp(&pl, id ^ (1ULL << 32), 0, NULL);
 				else if (!strcmp(f[1], "errpdu")) rb_err_payload(&pl, (uint64_t)strtoull(f[3], NULL, 10), "err");
+				else if (!strcmp(f[1], "conf") && ext) { rb_buf r; rb_init(&r); rb_tlv_int(&r, 0x04, 50); rb_tlv(&pl, 0x04, 0, 0, r.p, r.n); free(r.p); }
 				else if (!strcmp(f[1], "conf")) rb_aggr_conf(&pl, 17, 400);
 				else if (!strcmp(f[1], "okc")) { rb_aggr_conf(&pl, 17, 400); rb_aggr_resp(&pl, id, 0, NULL); }   /* the answer to a request that also asked for the configuration */
 				else if (!strcmp(f[1], "cok")) { rb_aggr_resp(&pl, id, 0, NULL); rb_aggr_conf(&pl, 17, 400); }
 				if (!strcmp(f[1], "garbage")) { unsigned char g[6] = {0x82, 0x21, 0x00, 0x02, 0xff, 0xff}; rb_put(&pdu, g, 6); }
-				else rb_pdu_v2(&pdu, 0x221, "anon", &pl, 1, !strcmp(f[1], "badmac") ? "wrong" : "pass", !strcmp(f[1], "badmac") ? 5 : 4);
+				else rb_pdu_v2(&pdu, ext ? 0x321 : 0x221, "anon", &pl, 1, !strcmp(f[1], "badmac") ? "wrong" : "pass", !strcmp(f[1], "badmac") ? 5 : 4);
 				rb_put(&stream, pdu.p, pdu.n);
 				if (!first) putchar(' '); first = 0;
 				putchar('S'); puthex(stdout, stream.p + at, stream.n - at);
